@@ -50,6 +50,15 @@ pub trait ExRead {
         ensures read_budget(&r) == Some(limit as nat),
     ;
 }
+#[verifier::external_type_specification]
+#[verifier::external_body]
+#[verifier::reject_recursive_types(T)]
+#[verifier::reject_recursive_types(U)]
+pub struct ExChain<T, U>(std::io::Chain<T, U>);
+// `a.chain(b)` (a provided method of Read whose own bound `R: Read` makes a trait-spec cycle in Verus) is redirected to this
+// stand-in by an extraction rewrite; ASSUMED: the result is some reader
+#[verifier::external_body]
+pub fn io_chain<A: std::io::Read, B: std::io::Read>(a: A, b: B) -> std::io::Chain<A, B> { a.chain(b) }
 
 #[verifier::external_trait_specification]
 pub trait ExWrite {
